@@ -350,6 +350,18 @@ class Source:
         raise self.exc_factory(self.ending)
 
 
+def generator_source(src, sched):
+    """the same source as a real generator object (what `ds.prefetch(1, b).items()` hands to the helper): it has a
+    close() of its own, and the worker can be switched out while it is executing inside it"""
+    while True:
+        try:
+            x = src.__next__()
+        except StopIteration:
+            return
+        sched.point(_tid())
+        yield x
+
+
 def _make_tracer(sched):
     fname = PU.__file__
 
@@ -379,7 +391,8 @@ def _make_tracer(sched):
 class StpRun:
     """one controlled run of the real single_thread_prefetch"""
 
-    def __init__(self, b, items, ending, stop_after, chooser, exc_factory, how='close'):
+    def __init__(self, b, items, ending, stop_after, chooser, exc_factory, how='close', gen_source=False):
+        self.gen_source = gen_source
         self.b, self.items, self.ending = b, list(items), ending
         self.stop_after = stop_after
         self.chooser = chooser
@@ -404,7 +417,7 @@ class StpRun:
         old_trace = sys.gettrace()
         try:
             sys.settrace(tracer)
-            gen = PU.single_thread_prefetch(src, self.b)
+            gen = PU.single_thread_prefetch(generator_source(src, sched) if self.gen_source else src, self.b)
             try:
                 k = 0
                 while True:
@@ -751,6 +764,9 @@ class ApiLpmRun:
                 elif self.via == 'batchmap':
                     # the same stage built by `batch_map` (batches of one example)
                     ds = base.map(pull_log).batch(1).batch_map(self.fn, num_workers=self.w, buffer_size=self.b)
+                elif self.via == 'prefetch_catch':
+                    # the pool path with a catching stage (an exception class no example raises here)
+                    ds = base.map(pull_log).map(self.fn).prefetch(self.w, self.b, catch_filter_exception=ZeroDivisionError)
                 else:
                     ds = base.map(pull_log).map(self.fn).prefetch(self.w, self.b)
                 if self.view == 'copy':                  # the stage consumed through a copy of itself
